@@ -104,6 +104,13 @@ def check(case):
             raise Violation(["raises", type(r[1]).__name__, getattr(fn, "__name__", "?")], "%s raised %r: %s" % (getattr(fn, "__name__", fn), r[1], desc))
         return r[1]
 
+    for a in case.get("stats_first", ()):
+        # `stats <arg>` goes through the same key validation with an EMPTY prefix; it must not disturb later key commands
+        r0 = env.call(c.stats, a)
+        sl = [e for e in srv.log if e.get("verb") == b"stats"]
+        want_arg = a.encode() if isinstance(a, str) else a
+        if not sl or sl[-1]["args"] != [want_arg]:
+            raise Violation(["stats-arg"], "stats(%r) reached the server as %r: %s" % (a, sl[-1:] , desc))
     st_op = case["store"]
     if st_op == "set_many":
         failed = call(c.set_many, {k: v for k, v in items}, noreply=nr)
@@ -190,6 +197,12 @@ def check(case):
                 got = got[0]
             if not same(got, exp[i]):
                 raise Violation(["value-differs", f_op, type(v).__name__], "%s[%r] = %s, stored %s: %s" % (f_op, k[:30], _short(got), _short(exp[i]), desc))
+    for a in case.get("stats_after", ()):
+        env.call(c.stats, a)
+        sl = [e for e in srv.log if e.get("verb") == b"stats"]
+        want_arg = a.encode() if isinstance(a, str) else a
+        if not sl or sl[-1]["args"] != [want_arg]:
+            raise Violation(["stats-arg"], "stats(%r) after key commands reached the server as %r: %s" % (a, sl[-1:], desc))
     # wire: every key-bearing command carries the prefix
     p = cfg.get("key_prefix", b"")
     p = p.encode("ascii") if isinstance(p, str) else p
@@ -294,6 +307,15 @@ def grid_cases(tier, seed):
                            "store": ["set", "set_many", "add", "cas"][i % 4], "fetch": fetch,
                            "coll": ["list", "tuple", "set", "dictview", "iter", "generator"][i % 6],
                            "pieces": [None, [4096], [1, 4095], [4095, 2], [7]][i % 5] if n < 65536 else None, "noreply": bool(i & 1)}
+    # keys spelled like stats sub-commands on a prefixed client, with `stats <that word>` before / after the key commands
+    for kind in ("client", "pooled"):
+        for pfx in (b"ns:", "app."):
+            for word in ("items", "settings", b"slabs", "sizes"):
+                for when in ("stats_first", "stats_after"):
+                    for fetch in ("get", "get_many", "gets"):
+                        yield {"kind": kind, "cfg": {"key_prefix": pfx, "allow_unicode_keys": False, "encoding": "ascii"}, "serde": None,
+                               "items": [[word, ("bytes", b"mine")], ["other", ("bytes", b"x")]], "absent": [],
+                               "store": "set", "fetch": fetch, "coll": "list", "pieces": None, "noreply": False, when: [word, "settings"]}
     # every key-collection type x every multi-key fetch x every client kind
     for coll in ("list", "tuple", "set", "dictview", "iter", "generator"):
         for fetch in ("get_many", "gets_many"):
